@@ -152,6 +152,18 @@ def gen_c02(rng, tier):
         base = bytes(rng.randrange(33, 127) for _ in range(L - 1))
         a, b = "h" + (base + b"A").hex(), "h" + (base + b"B").hex()
         mk(cases, "identity", ["N:a", "S:a:%s:ok" % a, "ST", "N:b", "S:b:%s:ok" % b, "ST", "N:c", "V:c:%s:ok" % a, "V:c:%s:ok" % b, "S:c:%s:ok" % (a[:-2] if L > 1 else "hff"), "ST"])
+    # more than a hundred wrong proofs (the specification's limit of authentication attempts), on one and on several
+    # connections; afterwards a key exchange without any proof on a fresh connection, and a genuine pairing
+    for tail in (["m5zeroempty"], ["m5emptyhkdf"], ["m5zerokey"]) if tier == "quick" else (["m5zeroempty"], ["m5emptyhkdf"], ["m5zerokey"], ["m5first"], ["m5randkey"]):
+        ops = ["N:a"]
+        for i in range(102):
+            c = "a" if i % 3 else "w%d" % i
+            if c != "a":
+                ops.append("N:" + c)
+            ops += ["S:%s:evil:start" % c, "S:%s:evil:m3wrong" % c]
+        ops += ["ST", "N:b", "S:b:evil:start", "S:b:evil:m3wrong"] + ["S:b:evil:%s" % m for m in tail] + ["ST", "N:c", "S:c:evil:start", "S:c:evil:%s" % tail[0], "ST",
+                "N:d", "S:d:good:ok", "ST"]
+        mk(cases, "many-wrong", ops)
     # exhaustive short sequences over the adversary alphabet on one connection (no right proof anywhere)
     alpha = [m for m in msgs if m not in ("ok", "m3")]
     import itertools
@@ -283,6 +295,13 @@ def gen_c03(rng, tier):
         ops = ["N:h", "S:h:%s:ok" % a, "ST", "N:v", "V:v:%s:ok" % a, "G:v:2.9", "N:x", "V:x:%s:unknowntail" % a, "Q:x",
                "N:y", "V:y:%s:ok" % b, "Q:y", "N:z", "V:z:%s:unknown" % a, "Q:z"]
         mk(cases, "longname", ops)
+    # the controller uses the exchange key pair of an accepted exchange again, on other connections, with finishes whose
+    # signature is not valid for the exchange at hand
+    for i in range(3 if tier == "quick" else 20):
+        ops = ["N:h", "S:h:c0:ok", "N:v", "V:v:c0:ok", "G:v:2.9"]
+        for k in range(rng.randrange(1, 4)):
+            ops += ["N:x%d" % k, "V:x%d:c0:%s" % (k, rng.choice(["samekey-badsig", "samekey-reordered"])), rng.choice(["Q:x%d" % k, "G:x%d:2.9" % k])]
+        mk(cases, "samekey", ops)
     # a recorded genuine exchange replayed on hundreds of new connections: the accessory's exchange key never repeats
     for i in range(1 if tier == "quick" else 4):
         mk(cases, "replay-later", ["N:h", "S:h:c0:ok", "VR:c0:%d" % (300 if tier == "quick" else 700), "N:v", "V:v:c0:ok", "G:v:2.9"])
